@@ -117,6 +117,10 @@ def run():
                 # a socket with generic parameters ('$s<T> //= ...') is rejected by the parser: listed under C03
                 out.known_hit("C03-socket-generics")
                 continue
+            if not m and re.search(r"(?m)^\$(?!\$)[A-Za-z0-9_.@-]*\s*(<[^>\n]*>)?\s*//=", text) and "C03-single-dollar-groupname" in finding_ids:
+                # a name with a single '$' extended as a group ('$s //= ...') is rejected by the parser: listed under C03
+                out.known_hit("C03-single-dollar-groupname")
+                continue
             if not m:
                 out.violation("parse-error-other", {"property": PID, "cddl": text, "observed": e, "expected": g["err"],
                                                     "spec": "documents of MC_RuleTable are syntactically valid: only the duplicate error may occur"})
